@@ -104,6 +104,14 @@ TABLE: list[tuple[str, str, bool, str, list[F]]] = [
         [],
     ),
     ("Carrier", "Expr", False, "", [F("tok", "Tok", "prop", "tok")]),
+    # a bookkeeping field that differs between otherwise content-equal nodes
+    ("Serial", "Expr", False, "", [F("name", "str", "prop", "str"), F("serial", "int", "prop", "int", "field(init=False, compare=False, default_factory=_next_serial)", compare=False, init=False)]),
+    # field names that sort before "__type"
+    ("Upper", "Expr", False, "", [F("Name", "str", "prop", "str"), F("ID", "int", "prop", "int", "0"), F("_x", "str", "prop", "str", '""')]),
+    # multiple inheritance (allowed for non-slotted subclasses)
+    ("Located", "Expr", False, "", [F("line", "int", "prop", "int", "0")]),
+    ("Typed", "Expr", False, "", [F("ty", "str", "prop", "str", '""')]),
+    ("Lit", "Typed, Located", False, "", [F("v", "str", "prop", "str", '""')]),
     (
         "Boom",
         "Expr",
@@ -125,6 +133,14 @@ from typing import Literal, Any
 from mashumaro.types import SerializableType
 from pyoak.node import ASTNode
 from simkit.core import FAULTS
+
+
+import itertools
+_SERIAL = itertools.count(100)
+
+
+def _next_serial() -> int:
+    return next(_SERIAL)
 
 
 class Color(enum.Enum):
@@ -204,24 +220,24 @@ _OWN = {name: own for name, _b, _s, _body, own in TABLE}
 _BASE = {name: base for name, base, *_ in TABLE}
 
 
+MRO: dict[str, list[str]] = {n: [c.__name__ for c in CLS[n].__mro__ if c.__name__ in _OWN] for n in _OWN}  # nearest first
+
+
 def _linear(name: str) -> list[F]:
-    if name == "ASTNode":
-        return []
-    return _linear(_BASE[name]) + list(_OWN[name])
+    out: list[F] = []
+    for c in reversed(MRO[name]):
+        for f in _OWN[c]:
+            if all(f.name != g.name for g in out):
+                out.append(f)
+    return out
 
 
 FIELDS: dict[str, list[F]] = {name: _linear(name) for name in _OWN}
 CHILD_FIELDS: dict[str, list[F]] = {n: [f for f in fs if f.kind != "prop"] for n, fs in FIELDS.items()}
 PROP_FIELDS: dict[str, list[F]] = {n: [f for f in fs if f.kind == "prop"] for n, fs in FIELDS.items()}
-MRO: dict[str, list[str]] = {}
-for _n in _OWN:
-    chain = [_n]
-    while _BASE[chain[-1]] != "ASTNode":
-        chain.append(_BASE[chain[-1]])
-    MRO[_n] = chain  # nearest first, without ASTNode
 
 NODE_CLASSES = [n for n in _OWN if n != "Expr"]
-LEAF_CLASSES = ["LeafA", "LeafB", "LeafA2", "Meta", "Vals", "FS", "Carrier"]
+LEAF_CLASSES = ["LeafA", "LeafB", "LeafA2", "Meta", "Vals", "FS", "Carrier", "Serial", "Upper", "Lit", "Located", "Typed"]
 INNER_CLASSES = ["Pair", "Seq", "Fixed", "Mixed", "Falsy"]
 
 # ---- origins ----------------------------------------------------------------------------------------
